@@ -7,6 +7,10 @@ def run(req):
     a = req.get("args", {})
     if fn in ("trajgrad.trap_grad", "trajgrad.min_trap_grad"):
         return _trap(fn, a)
+    if fn == "frame.check":
+        return _frame(a)
+    if fn == "linop.check":
+        return _linop(a)
     if fn == "alg.loop":
         return _loop(a)
     if fn == "alg.power":
@@ -527,3 +531,35 @@ def _power(a):
     if max(est[1:]) > lam * (1 + 1e-10):
         bad.append("estimate %g exceeds the largest eigenvalue %g" % (max(est[1:]), lam))
     return dict(reproduced=bool(bad), detail="; ".join(bad) or "ok")
+
+
+# ----------------------------------------------------------------------------- C01-C04 operators
+def _linop(a):
+    import linop_native as LN
+    rs = np.random.RandomState(int(a.get("seed", 0)))
+    cls, v, m = a["cls"], dict(a["v"]), dict(a.get("model", {}))
+    for k in list(v):
+        if isinstance(v[k], list):
+            v[k] = tuple(v[k])
+    props = set(a["props"])
+    try:
+        A = LN.mk(cls, v, m, rs)
+    except Exception as e:
+        if a.get("may_reject"):
+            return dict(reproduced=False, detail="constructor rejected the parameters: %s" % e)
+        return dict(reproduced=True, detail="constructor raised %s: %s for valid parameters" % (type(e).__name__, str(e)[:200]))
+    try:
+        bad = LN.check(A, props, rs)
+    except Exception as e:
+        return dict(reproduced=True, detail="%s raised during apply/adjoint: %s" % (type(e).__name__, str(e)[:300]))
+    return dict(reproduced=bool(bad), detail="; ".join(bad) or "all clauses hold", op=repr(A))
+
+
+def _frame(a):
+    import frame_native as FN
+    name = a.get("function")
+    # map a method/function name from the static analysis onto the table of sample calls
+    n, bad = FN.check(name=name, seed=int(a.get("seed", 0)))
+    if n == 0:
+        n, bad = FN.check(name=".".join(name.split(".")[:-1]) if name else None, seed=int(a.get("seed", 0)))
+    return dict(reproduced=bool(bad), detail="; ".join(bad[:3]) or ("%d sample calls leave their arguments unchanged" % n), calls=n)
